@@ -18,12 +18,12 @@ func (e StdEng) Transpose(a Tensor, expStrides []int) error {
 }
 
 func (e StdEng) denseTranspose(a DenseTensor, expStrides []int) {
+	e.transposeMask(a)
+
 	if a.rtype() == String.Type {
 		e.denseTransposeString(a, expStrides)
 		return
 	}
-
-	e.transposeMask(a)
 
 	switch a.rtype().Size() {
 	case 1:
